@@ -83,9 +83,9 @@ func main() {
 func tierConfig(tier string) (Config, exploreOpts) {
 	cfg := Config{MaxSteps: 3_000_000, MaxDecisions: 600, SplitMax: 4, RunesMax: 3, MapPerms: true, SolverMs: 8000}
 	eo := exploreOpts{Workers: 16, MaxPaths: 2000000, ConcordMax: 400, SampleMax: 6,
-		Solvers: []string{"z3new-s", "cvc5-1", "z3-1"}, SolverMs: []int{400, 4000, 12000}}
+		Solvers: []string{"z3new-1", "cvc5-1", "z3-1"}, SolverMs: []int{4000, 4000, 8000}}
 	if tier == "thorough" {
-		eo.SolverMs = []int{1000, 10000, 30000}
+		eo.SolverMs = []int{10000, 10000, 30000}
 		eo.MaxPaths = 20000000
 		eo.ConcordMax = 5000
 	}
